@@ -4,6 +4,8 @@ Tie (B) of the level recording: the WHOLE body of ivp_solver (layer loop, record
 final recording) and the mean-mode block of steady_state_transport_solver are translated from the current source by
 harness/py2coq_kernel.py and Bridge/KernelBridge.v re-proves gen_ivp_solver = Solver.ivp, gen_mean_mode = Solver.mean_loop
 for ALL inputs, plus the slot statements on the translated code (bridge_ivp_solver_slots, bridge_mean_mode_slots)."""
+import os
+
 import numpy as np
 
 import core
@@ -44,6 +46,9 @@ def check(ctx):
     core.check_properties_file(ctx, "Properties/C10.v", THEOREMS, core.AX_NONE)
     solverslices.run_kernel(ctx)   # whole-function tie of the recording loops (GenKernel.v, Bridge/KernelBridge.v)
     solverslices.run(ctx)          # skeleton, expression slices, plumbing slices
+    if os.path.exists(os.path.join(ctx.build, "GenKernel.vo")):
+        import kernelcorr
+        kernelcorr.run(ctx)        # the translated kernel on doubles vs ivp_solver called directly / the mean mode
     cases, kinds = gen(ctx)
     recs = sc.correspond(ctx, cases, "c10_")
     sc.summarize(ctx, cases, recs,
